@@ -9,7 +9,7 @@ for p in "$@"; do
     r=$(./seedverify.sh $d 2>&1 | tail -1)
     echo "$r"
     case "$r" in
-      *"build=ok suite_with_change=ok demo_with_change=fail demo_without=pass"*) ./seedkeep.sh $d $p-$x >/dev/null 2>&1;;
+      *"build=ok suite_with_change=ok"*"demo_with_change=fail demo_without=pass"*) ./seedkeep.sh $d $p-$x >/dev/null 2>&1;;
       *) echo "    NOT KEPT";;
     esac
   done
